@@ -380,26 +380,36 @@ def _trace_values(jpath, pid):
     for item in data:
         for p in item.get("result", []) if isinstance(item, dict) else []:
             if p.get("property") == pid and p.get("status") == "FAILURE" and "trace" in p:
-                out, cur = [], None
+                out, cur, last = [], None, 0
                 for st in p["trace"]:
                     if st.get("stepType") != "assignment" or st.get("assignmentType") != "actual-parameter":
                         continue
                     lhs = st.get("lhs")
                     b = st.get("value", {}).get("binary")
                     if lhs == "zv_sym_val":
+                        if cur is not None:
+                            # the call number of the previous value was not traced (it is a constant along the
+                            # path and CBMC may leave such assignments out): take the next number
+                            last += 1
+                            out.append((last, cur))
                         cur = list(int(b, 2).to_bytes(len(b) // 8, "little")) if b is not None else []
                     elif lhs == "zv_sym_seq" and b is not None:
-                        out.append((int(b, 2), cur if cur is not None else []))
+                        last = int(b, 2)
+                        out.append((last, cur if cur is not None else []))
                         cur = None
+                if cur is not None:
+                    out.append((last + 1, cur))
                 return out
     return None
 
 
-def extract_values(h, art, workdir, failed, cap_t, cap_mem):
-    """Re-run CBMC on the prepared goto program with --trace restricted to ONE failed property and read the
-    solver's values of every vany() call (parameters of common/sym.rs::zv_rec2) in execution order. The sliced
-    formula is tried first (cheap); values it dropped (gaps in the call numbering) are don't-cares and become
-    empty entries, which the native side reads as zero. Without a usable trace the unsliced formula is tried."""
+def value_candidates(h, art, workdir, failed, cap_t, cap_mem, features):
+    """Candidate input vectors for the native replay, cheapest source first: (1) the trace the deciding CBMC run
+    itself printed for one failed property; (2) a re-run of CBMC with --trace restricted to that property on the
+    sliced formula, (3) on the unsliced formula; (4) Kani's concrete playback. Values are read as the actual
+    parameters of common/sym.rs::zv_rec2 in execution order; values the slicer dropped (gaps in the call
+    numbering) are don't-cares and become empty entries, which the native side reads as zero. The caller stops at
+    the first candidate that reproduces."""
     name = h["name"]
     out = os.path.join(workdir, name + ".out")
     pick = next((f for f in failed if f["cls"] == "assertion"), failed[0])
@@ -409,21 +419,34 @@ def extract_values(h, art, workdir, failed, cap_t, cap_mem):
         base += ["--unwind", str(art["unwind"])]
     base += h.get("cbmc", []) + ["--sat-solver", "cadical"]
     jpath = os.path.join(workdir, name + ".trace.json")
-    for slicing in (["--slice-formula"], []):
-        cb = base + slicing + [out, "--trace", "--json-ui", "--property", pick["pid"]]
-        # building the trace needs noticeably more memory than deciding the formula: give it headroom
-        run_stage(name + "#trace", cb, jpath, cap_t, max(cap_mem, 28))
-        tv = _trace_values(jpath, pick["pid"])
+
+    def aligned(tv):
+        vals, expect = [], 1
+        for seq, b in tv:
+            while expect < seq:      # value sliced away: don't-care
+                vals.append([])
+                expect += 1
+            vals.append(b)
+            expect = seq + 1
+        return vals
+
+    seen = []
+    for source in ("deciding-run trace", "sliced trace", "unsliced trace"):
+        if source == "deciding-run trace":
+            tv = _trace_values(os.path.join(workdir, name + ".cbmc.json"), pick["pid"])
+        else:
+            cb = base + (["--slice-formula"] if source == "sliced trace" else []) + [out, "--trace", "--json-ui", "--property", pick["pid"]]
+            # building the trace needs noticeably more memory than deciding the formula: give it headroom
+            run_stage(name + "#trace", cb, jpath, cap_t, max(cap_mem, 28))
+            tv = _trace_values(jpath, pick["pid"])
         if tv:
-            vals, expect = [], 1
-            for seq, b in tv:
-                while expect < seq:      # value sliced away: don't-care
-                    vals.append([])
-                    expect += 1
-                vals.append(b)
-                expect = seq + 1
-            return vals, pick
-    return None, pick
+            vals = aligned(tv)
+            if vals not in seen:
+                seen.append(vals)
+                yield source, vals
+    vals = concrete_playback(h, features)
+    if vals is not None and vals not in seen:
+        yield "kani concrete playback", vals
 
 
 def concrete_playback(h, features):
@@ -433,8 +456,18 @@ def concrete_playback(h, features):
     if features:
         cmd += ["--features", ",".join(features)]
     with Lock(os.path.join(TARGET, "playback.lock")):
-        p = subprocess.run(cmd, cwd=HARNESS, env=ENV, stdout=subprocess.PIPE, stderr=subprocess.STDOUT, text=True)
-    txt = p.stdout
+        # kani-driver runs its own, uncapped CBMC: cap the address space of the whole process group and the time
+        p = subprocess.Popen(cmd, cwd=HARNESS, env=ENV, stdout=subprocess.PIPE, stderr=subprocess.STDOUT, text=True,
+                             preexec_fn=_limits(28))
+        try:
+            txt, _ = p.communicate(timeout=1800)
+        except subprocess.TimeoutExpired:
+            try:
+                os.killpg(p.pid, signal.SIGKILL)
+            except Exception:
+                pass
+            p.wait()
+            return None
     # Kani prints one block per satisfied cover AND per failed check; take the first one that belongs to a failed check
     m = None
     for cand in re.finditer(r"((?:[ \t]*///[^\n]*\n)*)[ \t]*#\[test\]\s*fn \w+\(\) \{\s*let concrete_vals: Vec<Vec<u8>> = vec!\[(.*?)\];", txt, re.S):
@@ -621,27 +654,29 @@ def main():
             continue
         os.makedirs(replay_dir, exist_ok=True)
         log(f"  counterexample in {h['name']}: " + "; ".join(f"{f['cls']}: {f['desc'][:100]} @ {f['loc']}" for f in r["failed"][:4]))
-        vals, picked = extract_values(h, arts[h["name"]], workdir, r["failed"], caps["time"], caps["mem_gb"])
-        if vals is None:
-            vals = concrete_playback(h, features)  # fallback: Kani's own concrete playback
         rp = os.path.join(replay_dir, f"{h['name']}.json")
-        if vals is None:
-            r["replay"] = "playback-extraction-failed"
-            unconfirmed.append(h["name"])
-            continue
-        json.dump(dict(harness=h["name"], property=prop, features=features, values=vals, failed=r["failed"][:8],
-                       targets=h["targets"], bounds=h["bounds"]), open(rp, "w"), indent=1)
         vpath = rp + ".vals.json"
-        json.dump(vals, open(vpath, "w"))
-        outs = native_replay(h, vpath, features)
-        replays += 1
         # memory-safety failures (out-of-bounds pointer arithmetic, dangling/deallocated accesses) rarely trap in a
         # plain native run: if ANY failed check is of that kind and nothing reproduced, ask Miri
         memsafe = any(f["cls"] in MEMSAFE_CLASSES or "dereference" in f["desc"] or "deallocated" in f["desc"]
                       or "same allocation" in f["desc"] for f in r["failed"])
-        if memsafe and not any(v["verdict"] == "reproduced" for v in outs.values()):
-            # use-after-free / out-of-bounds reads rarely trap in a plain run: ask Miri
-            outs.update(native_replay(h, vpath, features, miri=True))
+        outs, tried = None, 0
+        for source, vals in value_candidates(h, arts[h["name"]], workdir, r["failed"], caps["time"], caps["mem_gb"], features):
+            tried += 1
+            json.dump(dict(harness=h["name"], property=prop, features=features, values=vals, values_from=source,
+                           failed=r["failed"][:8], targets=h["targets"], bounds=h["bounds"]), open(rp, "w"), indent=1)
+            json.dump(vals, open(vpath, "w"))
+            outs = native_replay(h, vpath, features)
+            replays += 1
+            if memsafe and not any(v["verdict"] == "reproduced" for v in outs.values()):
+                outs.update(native_replay(h, vpath, features, miri=True))
+            if any(v["verdict"] == "reproduced" for v in outs.values()):
+                break
+            log(f"  values from the {source} did not reproduce: {({k: v['verdict'] for k, v in outs.items()})}")
+        if outs is None:
+            r["replay"] = "playback-extraction-failed"
+            unconfirmed.append(h["name"])
+            continue
         r["replay"] = {k: v["verdict"] for k, v in outs.items()}
         r["replay_file"] = rp
         log(f"  native replay {h['name']}: {r['replay']}")
